@@ -82,3 +82,13 @@ pub fn close(a: f64, b: f64, tol: f64, scale: f64) -> bool {
     }
     (a - b).abs() <= tol * scale
 }
+
+/// prediction through the uniform `api::Predictor` trait (generic code path) instead of the inherent method
+pub fn trait_predict<X, Y, E: smartcore::api::Predictor<X, Y>>(e: &E, x: &X) -> Result<Y, smartcore::error::Failed> {
+    smartcore::api::Predictor::predict(e, x)
+}
+
+/// fit through the uniform `api::SupervisedEstimator` trait
+pub fn trait_fit<X, Y, P: Clone, E: smartcore::api::SupervisedEstimator<X, Y, P>>(x: &X, y: &Y, p: P) -> Result<E, smartcore::error::Failed> {
+    <E as smartcore::api::SupervisedEstimator<X, Y, P>>::fit(x, y, p)
+}
